@@ -118,7 +118,7 @@ func GenCell(t *rapid.T, row, col int, wide bool) Cell {
 	switch k {
 	case FormulaStr, FormulaNum:
 		c.Formula = rapid.SampledFrom(formulas).Draw(t, "formula")
-	case Bool, Error:
+	case Bool, Error, Inline:
 		if rapid.Bool().Draw(t, "hasFormula") {
 			c.Formula = rapid.SampledFrom(formulas).Draw(t, "formula")
 		}
